@@ -384,6 +384,11 @@ def execute_model(cfg, dress, fseed):
             else:
                 sec.AddVariable(v['name'], 'variable ' + v['name'], rhs_text(v))
         form = cfg['exo']['form']
+        if rng.random() < 0.5:
+            # a provisional horizon stated before the paths are declared; the one stated last (below) is in force
+            early = rng.choice([0, 1])
+            mod.MaxTime = early
+            calls.append('model.MaxTime = %d    (provisional)' % early)
         for v in cfg['vars']:
             if v['cls'] != 'exo':
                 continue
